@@ -500,7 +500,13 @@ impl IntoLower for ast::PropertyOp {
     type Output = ir::Expression;
 
     fn into_lower(&self, ctx: &Context) -> Result<Self::Output, Error> {
-        let object = self.operand.into_lower(ctx)?;
+        // a field of an input is a field of the datum it carries, wherever the access is written
+        let object = match self.operand.as_ref() {
+            ast::DataExpr::Identifier(id) if matches!(id.symbol, Some(ast::Symbol::Input(_))) => {
+                self.operand.into_lower(&ctx.enter_datum_expr())?
+            }
+            _ => self.operand.into_lower(ctx)?,
+        };
 
         let ty = self
             .operand
